@@ -163,6 +163,16 @@ def let(
     return result
 
 
+def _instances_of(type_: Type, domain: Iterable) -> Iterable:
+    """
+    The elements of the domain that are instances of the type; the domain is not touched (not even ``iter(domain)``)
+    before the first element is asked for.
+    """
+    for value in domain:
+        if isinstance(value, type_):
+            yield value
+
+
 def _get_domain_source_from_domain_and_type_values(
     domain: DomainType, type_: Type
 ) -> Optional[From]:
@@ -174,7 +184,7 @@ def _get_domain_source_from_domain_and_type_values(
     :return: The domain source as a From object.
     """
     if is_iterable(domain):
-        domain = filter(lambda x: isinstance(x, type_), domain)
+        domain = _instances_of(type_, domain)
     elif domain is None and issubclass(type_, Symbol):
         return From(
             SymbolGraph().get_instances_of_type(type_), symbol_graph_type=type_
